@@ -34,3 +34,39 @@ void h_lemma_request_then_reply(void) {
                      "[lemma.approval_is_credited_to_exactly_the_user_and_domain_the_checker_was_asked_about]");
   }
 }
+
+/* Two-step lemma over the REAL bundled getDigest() and the REAL onDigestReply() (both lowered, neither replaced):
+ *
+ *   "a connection gets past DIGEST-MD5 verification (and so can become authenticated through DIGEST-MD5) only if the checker knows the
+ *    user (getPassword reported NoError) and the client's response matches the digest of that user's password"
+ *
+ * step 1: getDigest(request) looks the user up and builds the reply;
+ * step 2: the reply finishes and runs onDigestReply() on an arbitrary connection state (within the SASL-object invariant) whose reply
+ *         carries the raw SASL payload as dynamic property (checkCredentials' verified postcondition).
+ * Together with the handlers' respond contract (DIGEST-MD5 says Succeeded only from step 2, reached only by that verification). */
+void h_lemma_digest_lookup_then_reply(void) {
+  gh_havoc();
+  QXmppPasswordChecker checker; QXmppPasswordRequest request;
+  request.m_domain = nondet_qstr(); request.m_username = nondet_qstr(); request.m_password = nondet_qstr();
+  QXmppPasswordReply *reply = QXmppPasswordChecker_getDigest_base(&checker, &request);
+  int lookup = gh_gp_result; qstr secret = gh_gp_secret;
+  QXmppIncomingClient c; QXmppIncomingClientPrivate d; QTimer timer; QSslSocket sock; QXmppSaslServer sasl;
+  c.d = &d; d.q = &c; d.idleTimer = &timer; d.socket.m_socket = &sock; d.passwordChecker = &checker;
+  d.saslServer = nondet_bool() ? &sasl : NULL;
+  qbytes raw = nondet_int();
+  gh_prop_n = 1; gh_prop_obj[0] = reply; gh_prop_name[0] = S("__sasl_raw"); gh_prop_val[0] = raw; gh_ov_n = 0;
+  gh_sender = reply;
+  if (SASL_OBJECT_INV(d.saslServer)) {
+    qstr jid_before = d.jid; unsigned success_before = gh_sent_success; unsigned calls_before = gh_respond_calls;
+    qbytes digest_before = d.saslServer != NULL ? d.saslServer->passwordDigest : 0;
+    QXmppIncomingClient_onDigestReply(&c);
+    bool verified = d.saslServer != NULL && d.saslServer->mechanism == S("DIGEST-MD5") && gh_respond_calls != calls_before && gh_respond_self == d.saslServer &&
+                    gh_respond_old_step == 1 && d.saslServer->m_step == 2;
+    __CPROVER_assert(!verified || (lookup == QXmppPasswordReply_Error__NoError && gh_respond_request == raw &&
+                                   gh_respond_secret == DIGEST_OF(request.m_username, request.m_domain, secret)),
+                     "[lemma.digest_md5_verification_passes_only_for_a_user_the_checker_knows_and_against_the_digest_of_that_users_password]");
+    __CPROVER_assert(d.saslServer == NULL || d.saslServer->passwordDigest == digest_before || d.saslServer->passwordDigest == 0 || lookup == QXmppPasswordReply_Error__NoError,
+                     "[lemma.a_digest_reaches_the_sasl_object_only_from_a_lookup_that_knows_the_user]");
+    __CPROVER_assert(d.jid == jid_before && gh_sent_success == success_before, "[lemma.a_digest_lookup_alone_never_authenticates]");
+  }
+}
